@@ -728,8 +728,15 @@ def tier_bound(job, tier):
     return 3 if count_leaves(job[1]) <= 2 else 2
 
 
-THOROUGH_NOTE = ("thorough tier: every forest of nesting depth <= 3 with <= 4 leaves at deviation bound 2, and every forest with "
-                 "<= 2 leaves at bound 3")
+THOROUGH_NOTE = ("thorough tier: every forest of nesting depth <= 2 with <= 4 leaves and of depth 3 with <= 3 leaves at deviation "
+                 "bound 2, and every forest with <= 2 leaves at bound 3")
+
+
+def thorough_shapes(always=False, maxtop=3):
+    """depth <= 2 up to 4 leaves, depth 3 up to 3 leaves (there are 4004 depth-3 forests with 4 leaves: ~4*10^7 executions)"""
+    a = shapes(2, maxtop=maxtop, maxleaves=4, always=always)
+    b = [s for s in shapes(3, maxtop=maxtop, maxleaves=3, always=always) if s not in a]
+    return a + b
 
 
 def count_leaves(shape):
